@@ -214,24 +214,37 @@ func runC11Cross(r *Report, rng *rand.Rand, thorough bool) {
 		name  string
 		doc   map[string]any
 		enums map[string]int // enum type -> number of values
+		old   bool           // generated with compatibility.old-enum-conflicts
 	}{
+		{"old-enum-conflicts: the path-prefixed constant names of two enums clash (Foo+bar_x, FooBar+x)",
+			map[string]any{"paths": map[string]any{}, "components": map[string]any{"schemas": map[string]any{
+				"Foo": map[string]any{"type": "string", "enum": []any{"bar_x", "baz"}}, "FooBar": map[string]any{"type": "string", "enum": []any{"x", "y"}}}}},
+			map[string]int{"Foo": 2, "FooBar": 2}, true},
+		{"old-enum-conflicts: a path-prefixed constant is named like a type (Pet+store, PetStore)",
+			map[string]any{"paths": map[string]any{}, "components": map[string]any{"schemas": map[string]any{
+				"Pet": map[string]any{"type": "string", "enum": []any{"store", "shop"}}, "PetStore": map[string]any{"type": "object", "properties": map[string]any{"id": map[string]any{"type": "string"}}}}}},
+			map[string]int{"Pet": 2}, true},
+		{"old-enum-conflicts: no clash",
+			map[string]any{"paths": map[string]any{}, "components": map[string]any{"schemas": map[string]any{
+				"Color": map[string]any{"type": "string", "enum": []any{"red", "green"}}, "Size": map[string]any{"type": "integer", "enum": []any{1, 2, 3}}}}},
+			map[string]int{"Color": 2, "Size": 3}, true},
 		{"component enum and inline query-parameter enum share values",
 			map[string]any{"paths": map[string]any{"/pets": map[string]any{"get": map[string]any{"operationId": "listPets",
 				"parameters": []any{map[string]any{"name": "sort", "in": "query", "schema": map[string]any{"type": "string", "enum": []any{"asc", "desc"}}}}, "responses": resp}}},
 				"components": map[string]any{"schemas": map[string]any{"Order": map[string]any{"type": "string", "enum": []any{"asc", "desc", "none"}},
 					"Holder": map[string]any{"type": "object", "properties": map[string]any{"o": map[string]any{"$ref": "#/components/schemas/Order"}}}}}},
-			map[string]int{"Order": 3, "ListPetsParamsSort": 2}},
+			map[string]int{"Order": 3, "ListPetsParamsSort": 2}, false},
 		{"inline request-body enum value equal to a component type name",
 			map[string]any{"paths": map[string]any{"/things": map[string]any{"post": map[string]any{"operationId": "addThing",
 				"requestBody": map[string]any{"content": map[string]any{"application/json": map[string]any{"schema": map[string]any{"type": "object", "properties": map[string]any{
 					"kind": map[string]any{"type": "string", "enum": []any{"pet", "toy"}}, "pet": map[string]any{"$ref": "#/components/schemas/Pet"}}}}}}, "responses": resp}}},
 				"components": map[string]any{"schemas": map[string]any{"Pet": map[string]any{"type": "object", "properties": map[string]any{"id": map[string]any{"type": "string"}}}}}},
-			map[string]int{"AddThingJSONBodyKind": 2}},
+			map[string]int{"AddThingJSONBodyKind": 2}, false},
 		{"reusable parameter with an inline enum, referenced by an operation",
 			map[string]any{"paths": map[string]any{"/pets": map[string]any{"get": map[string]any{"operationId": "listPets",
 				"parameters": []any{map[string]any{"$ref": "#/components/parameters/color"}}, "responses": resp}}},
 				"components": map[string]any{"parameters": map[string]any{"color": map[string]any{"name": "color", "in": "query", "schema": map[string]any{"type": "string", "enum": []any{"red", "green"}}}}}},
-			map[string]int{"Color": 2, "ListPetsParamsColor": 2}},
+			map[string]int{"Color": 2, "ListPetsParamsColor": 2}, false},
 	}
 	for _, ps := range positions {
 		ps.doc["openapi"] = "3.0.3"
@@ -239,7 +252,8 @@ func runC11Cross(r *Report, rng *rand.Rand, thorough bool) {
 		spec, _ := json.Marshal(ps.doc)
 		cfg := codegen.Configuration{PackageName: "gen", Generate: codegen.GenerateOptions{Models: true, Client: true}}
 		cfg.OutputOptions.SkipPrune = true
-		replay := map[string]any{"spec": json.RawMessage(spec)}
+		cfg.Compatibility.OldEnumConflicts = ps.old
+		replay := map[string]any{"spec": json.RawMessage(spec), "old_enum_conflicts": ps.old}
 		r.Count("positions/"+ps.name, true)
 		r.Dist["family=cross-enum-positions"]++
 		code, err := generate(spec, cfg)
